@@ -1,6 +1,8 @@
 package main
 
 import (
+	"context"
+	"encoding/json"
 	"fmt"
 	"math/rand"
 	"strings"
@@ -161,5 +163,177 @@ func runRaceStress(c *hk.Ctx) {
 		b.CloseByClient()
 		d.CloseByClient()
 		a.CloseByClient()
+	}
+}
+
+// runRequestSchedules: a server-issued request (roots/list) that is pending — written on a stream, the client's answer
+// not yet posted — while an OLD stream's handler runs its exit. The request was addressed to the session, its answer
+// arrives on a POST: whatever stream teardown happens in between, the waiting SendRequest must get that answer.
+//
+//	R1: open 0, open 1 (replaces 0; handler 0 parked before its exit), REQUEST (goes out on 1), handler 0 wakes + exits, ANSWER
+//	R2: open 0, REQUEST (goes out on 0), open 1, handler 0 wakes + exits, ANSWER
+//	R3: open 0, REQUEST (goes out on 0), client closes 0, handler 0 wakes + exits, ANSWER
+func runRequestSchedules(c *hk.Ctx, ctl *controller) {
+	type handler struct {
+		tag     string
+		arrived chan string
+		release chan struct{}
+		done    chan struct{}
+		stream  *hk.Stream
+	}
+	for _, name := range []string{"R1", "R2", "R3"} {
+		runNo++
+		f := hk.NewFixture(hk.SrvCfg{Mode: "stateful", Get: true, PostSSE: false})
+		r := f.Post(nil, `{"jsonrpc":"2.0","id":1,"method":"initialize","params":{"protocolVersion":"2025-03-26","capabilities":{"roots":{"listChanged":true}},"clientInfo":{"name":"v","version":"1"}}}`)
+		sid := ""
+		if r.Header != nil {
+			sid = r.Header.Get("Mcp-Session-Id")
+		}
+		f.Post(map[string]string{"Mcp-Session-Id": sid}, `{"jsonrpc":"2.0","method":"notifications/initialized"}`)
+		open := func(n int) *handler {
+			h := &handler{tag: fmt.Sprintf("q%d-c%d", runNo, n), done: make(chan struct{})}
+			h.arrived, h.release = ctl.chans(h.tag)
+			go func() {
+				_, _, s, _ := f.OpenStream(map[string]string{"Mcp-Session-Id": sid, "X-Verif-Conn": h.tag})
+				h.stream = s
+				close(h.done)
+			}()
+			return h
+		}
+		step := func(h *handler, want string) bool { // release from the current point, wait for the next one
+			h.release <- struct{}{}
+			return waitPoint(h.arrived, nil) == want
+		}
+		upTo := func(h *handler) bool { // from get:start to headers received
+			if waitPoint(h.arrived, nil) != "get:start" {
+				return false
+			}
+			if !step(h, "get:stored") || !step(h, "get:flushed") {
+				return false
+			}
+			select {
+			case <-h.done:
+				return h.stream != nil
+			case <-time.After(ceiling):
+				return false
+			}
+		}
+		type res struct {
+			raw string
+			err error
+		}
+		resCh := make(chan res, 1)
+		request := func(on *handler) (id string, ok bool) {
+			go func() {
+				ctx, cancel := context.WithTimeout(context.Background(), 6*time.Second)
+				defer cancel()
+				raw, err := f.S.SendRequest(ctx, sid, &mcp.JSONRPCRequest{JSONRPC: "2.0", Request: mcp.Request{Method: "roots/list"}})
+				s := ""
+				if raw != nil {
+					s = string(*raw)
+				}
+				resCh <- res{s, err}
+			}()
+			deadline := time.Now().Add(2 * time.Second)
+			for time.Now().Before(deadline) {
+				for _, e := range on.stream.Snapshot() {
+					var m map[string]any
+					if json.Unmarshal([]byte(e.Data), &m) == nil && m["method"] == "roots/list" {
+						b, _ := json.Marshal(m["id"])
+						return string(b), true
+					}
+				}
+				time.Sleep(time.Millisecond)
+			}
+			return "", false
+		}
+		exit := func(h *handler) bool { // the handler is parked after its header flush: let it wait, wake, run its exit, return
+			if !step(h, "get:woken") || !step(h, "get:exited") {
+				return false
+			}
+			h.release <- struct{}{}
+			return h.stream.Ended(ceiling)
+		}
+		ok, where := true, ""
+		fail := func(w string) { ok, where = false, w }
+		h0 := open(0)
+		var h1 *handler
+		var id string
+		switch {
+		case !upTo(h0):
+			fail("open 0")
+		case name == "R1":
+			h1 = open(1)
+			if !upTo(h1) {
+				fail("open 1")
+			} else if id, ok = request(h1); !ok { // handler 0 (replaced, cancelled) is still parked: its exit has not run
+				fail("request not delivered on the new stream")
+			} else if !exit(h0) {
+				fail("exit 0")
+			}
+		case name == "R2":
+			if id, ok = request(h0); !ok {
+				fail("request not delivered on stream 0")
+			} else {
+				h1 = open(1)
+				if !upTo(h1) {
+					fail("open 1")
+				} else if !exit(h0) {
+					fail("exit 0")
+				}
+			}
+		default:
+			if id, ok = request(h0); !ok {
+				fail("request not delivered on stream 0")
+			} else {
+				h0.stream.CloseByClient()
+				if !exit(h0) {
+					fail("exit 0")
+				}
+			}
+		}
+		if !ok {
+			// the scenario could not be driven (scheduling points moved?): reported by the model/implementation diff of the
+			// ordinary schedules; here only counted
+			c.Count("request-schedule", false, map[string]any{"scenario": name, "stopped_at": where}, "undriven-"+name)
+		} else {
+			f.Post(map[string]string{"Mcp-Session-Id": sid}, fmt.Sprintf(`{"jsonrpc":"2.0","id":%s,"result":{"roots":[{"uri":"file:///verif-%s","name":"r"}]}}`, id, name))
+			var got res
+			select {
+			case got = <-resCh:
+			case <-time.After(7 * time.Second):
+				got = res{"", fmt.Errorf("SendRequest did not return")}
+			}
+			good := got.err == nil && strings.Contains(got.raw, "verif-"+name)
+			c.Count("request-schedule", true, map[string]any{"scenario": name, "answered": good}, "request-"+name)
+			// R2 / R3 are observations only: their request was issued before the newer stream's headers (R2) or has no newer
+			// stream at all (R3) — a server may fail such a request with the stream it went out on; the statement rules on R1
+			if !good && name == "R1" {
+				c.Violate(hk.Violation{Fingerprint: "streams:pending-request-lost-by-stream-teardown:" + name,
+					What:     "a server-issued request addressed to the session was pending while an old stream's handler exited; the client's answer, posted afterwards, did not reach the waiting SendRequest",
+					Input:    map[string]any{"scenario": name, "steps": map[string]string{"R1": "open 0, open 1, request (on 1), wake+exit 0, answer", "R2": "open 0, request (on 0), open 1, wake+exit 0, answer", "R3": "open 0, request (on 0), client closes 0, wake+exit 0, answer"}[name]},
+					Observed: map[string]any{"error": fmt.Sprint(got.err), "result": got.raw}})
+			}
+		}
+		for _, h := range []*handler{h0, h1} {
+			if h == nil {
+				continue
+			}
+			ctl.setFree(h.tag)
+			for i := 0; i < 6; i++ {
+				select {
+				case h.release <- struct{}{}:
+				default:
+				}
+			}
+			select {
+			case <-h.done:
+			case <-time.After(2 * time.Second):
+			}
+			if h.stream != nil {
+				h.stream.CloseByClient()
+			}
+		}
+		f.Close()
 	}
 }
